@@ -212,6 +212,41 @@ namespace hv
         }
     };
 
+    // generic over its output type: wire<Conv, TS<Int>> and wire<Conv, TS<Float>> are two resolutions of one definition
+    // that differ only in the resolved output type (same inputs, same scalars)
+    struct Conv
+    {
+        static constexpr auto name = "hv_conv";
+        static void start(Scalar<"id", Int> id) { u_start(id.value()); }
+        static void stop(Scalar<"id", Int> id) { u_stop(id.value()); }
+        static void eval(In<"a", TS<Int>> a, Scalar<"id", Int> id, DateTime now, Out<TsVar<"O">> out)
+        {
+            InLog il;
+            il.add(a);
+            u_eval(id.value(), now, il.done());
+            ctx().faults.maybe_throw(id.value(), PH_EVAL);
+            const TSOutputView &erased = out;
+            if (erased.schema() == schema_descriptor<TS<Float>>::ts_meta())
+            {
+                Value v{Float(static_cast<double>(a.value()) + 0.5)};
+                out.apply(v.view());
+                u_out(id.value(), now, norm(2 * a.value() + 1));     // what FloatToInt below makes of it
+            }
+            else
+            {
+                const long long r = norm(a.value() + 1);
+                Value v{Int{r}};
+                out.apply(v.view());
+                u_out(id.value(), now, r);
+            }
+        }
+    };
+    struct FloatToInt
+    {
+        static constexpr auto name = "hv_float_to_int";
+        static void eval(In<"a", TS<Float>> a, Out<TS<Int>> out) { out.set(Int{norm(static_cast<long long>(a.value() * 2))}); }
+    };
+
     struct Accum
     {
         static constexpr auto name = "hv_accum";
@@ -328,7 +363,8 @@ namespace hv
         static void eval(In<"e", TS<NodeError>> e, Scalar<"id", Int> id, DateTime now)
         {
             Line("errtick").i("id", id.value()).i("t", off(now)).b("m", e.modified())
-                .str("msg", e.base().value().as_bundle().at("error_msg").template checked_as<Str>()).emit();
+                .str("msg", e.base().value().as_bundle().at("error_msg").template checked_as<Str>())
+                .str("bt", e.base().value().as_bundle().at("activation_back_trace").template checked_as<Str>()).emit();
         }
     };
     struct StopAt
